@@ -125,6 +125,9 @@ int g_t0;			/* data->access_time on entry */
 #define IN_CACHE(c) __CPROVER_pointer_in_range_dfcc(&E(0), (c), &E(7))
 #define NOT_THIS(i) (!(E(i).in_use && E(i).block == block))
 #define UNUSED_OR_OLDER(i, c) (!E(i).in_use || (c)->access_time <= E(i).access_time)
+/* every block number held by the cache is one a caller passed in (below BLK_MAX) */
+#define LABEL_OK(i) (E(i).block < BLK_MAX)
+#define CACHE_RANGE_OK(ch, data) (ALL(LABEL_OK) && RAW_RANGE_OK(ch, data, 0ULL, 1))
 #define ATIME_OK(data) ((data)->access_time >= 0 && (data)->access_time < 0x7fffff00)
 
 /*
@@ -147,6 +150,9 @@ static char CB0[CFG_BS], CB1[CFG_BS], CB2[CFG_BS], CB3[CFG_BS], CB4[CFG_BS], CB5
 #define GINUSE_DIRTY(i) (G(i).in_use && G(i).dirty)
 #define GENTRY_FIELDS(i) G(i).block, G(i).access_time, G(i).dirty, G(i).in_use, G(i).write_err
 #define GALL_ENTRY_FIELDS GENTRY_FIELDS(0), GENTRY_FIELDS(1), GENTRY_FIELDS(2), GENTRY_FIELDS(3), GENTRY_FIELDS(4), GENTRY_FIELDS(5), GENTRY_FIELDS(6), GENTRY_FIELDS(7)
+/* block, access_time and the state bits of entry i as ONE byte range (everything but the buffer pointer) */
+#define GENTRY_SLICE(i) __CPROVER_object_upto((char *)&G(i).block, sizeof(G(i)) - __builtin_offsetof(struct unix_cache, block))
+#define GALL_ENTRY_SLICES GENTRY_SLICE(0), GENTRY_SLICE(1), GENTRY_SLICE(2), GENTRY_SLICE(3), GENTRY_SLICE(4), GENTRY_SLICE(5), GENTRY_SLICE(6), GENTRY_SLICE(7)
 #define GALL_CBUFS __CPROVER_object_whole(CB0), __CPROVER_object_whole(CB1), __CPROVER_object_whole(CB2), __CPROVER_object_whole(CB3), \
 	__CPROVER_object_whole(CB4), __CPROVER_object_whole(CB5), __CPROVER_object_whole(CB6), __CPROVER_object_whole(CB7)
 #endif
@@ -180,29 +186,61 @@ void *memcpy(void *dst, const void *src, size_t n)
 
 /* ------------------------------------------------------------------ the device (enforced in raw.c) */
 /*
- * raw_write_blk as seen by the cache layer: exactly one device write request; success => the device holds the
- * caller's byte at L* when the request covers L*; a request that does not cover L* leaves the device byte alone,
- * whether it succeeds or not.
+ * Ranges every caller guarantees (block numbers come from a file system of at most 2^32 blocks of at most 64 KiB, the
+ * "offset=" option is a non-negative byte offset, one request is below 2 GiB): they keep block*block_size+offset inside
+ * ext2_loff_t and the byte count inside the `int actual` that raw_*_blk compare it with.
+ */
+/* the only thing that ever happens to channel->align after open: raw_*_blk normalise 0 to 1 when IO_FLAG_FORCE_BOUNCE is set */
+#define ALIGN_STEP(ch) ((ch)->align == OLD((ch)->align) || (OLD((ch)->align) == 0 && (ch)->align == 1))
+#define BLK_MAX (1ULL << 46)
+#define OFF_MAX (1LL << 50)
+#define RAW_RANGE_OK(ch, d, block, count) ((count) != 0 && (count) > -0x40000000 && (block) < BLK_MAX && \
+	(d)->offset >= 0 && (d)->offset < OFF_MAX && WR_SIZE(ch, count) <= 0x7fffffffULL && \
+	(ch)->block_size >= 1 && (ch)->block_size <= 65536 && (ch)->align >= 0 && (ch)->align <= 65536)
+/*
+ * g_nwrites / g_nreads / g_wfail are recorders of the CALL EVENT itself (number of raw_*_blk calls so far, "some
+ * raw_write_blk call returned non-zero").  They have no counterpart inside the function body, so the unit that enforces
+ * the contract against the real body (raw.c, -DRAW_NO_CALL_EVENTS) leaves these clauses out; everything about the device
+ * content and the caller's buffer is the same text in both uses.
+ */
+#ifdef RAW_NO_CALL_EVENTS
+#define RAW_WRITE_EVENTS
+#define RAW_READ_EVENTS
+#define RAW_WRITE_EVENT_FRAME
+#define RAW_READ_EVENT_FRAME
+#else
+#define RAW_WRITE_EVENTS ENSURES(g_nwrites == OLD(g_nwrites) + 1) ENSURES(RET == 0 ? g_wfail == OLD(g_wfail) : g_wfail == 1)
+#define RAW_READ_EVENTS ENSURES(g_nreads == OLD(g_nreads) + 1)
+#define RAW_WRITE_EVENT_FRAME , g_nwrites, g_wfail
+#define RAW_READ_EVENT_FRAME , g_nreads
+#endif
+#ifndef RAW_DEVICE_FRAME	/* raw.c: the ghost state of its device model (file position, size, request log, bounce buffer) */
+#define RAW_DEVICE_FRAME
+#endif
+/*
+ * raw_write_blk as seen by the cache layer: success => the device holds the caller's byte at L* when the request
+ * covers L*; a request that does not cover L* leaves the device byte alone, whether it succeeds or not (this is the
+ * read-modify-write obligation of the bounce-buffer path: L* is arbitrary, so it speaks of every byte outside the range).
  */
 static errcode_t raw_write_blk(io_channel channel, struct unix_private_data *data,
 			       unsigned long long block, int count, const void *bufv, int flags)
-	REQUIRES(count != 0)
-	ASSIGNS(g_disk, g_nwrites, g_wfail, data->io_stats.bytes_written)
-	ENSURES(g_nwrites == OLD(g_nwrites) + 1)
-	ENSURES(RET == 0 ? g_wfail == OLD(g_wfail) : g_wfail == 1)
+	REQUIRES(RAW_RANGE_OK(channel, data, block, count) && channel->write_error == 0)
+	ASSIGNS(g_disk, data->io_stats.bytes_written, channel->align RAW_WRITE_EVENT_FRAME RAW_DEVICE_FRAME)
+	RAW_WRITE_EVENTS
 	ENSURES(COVERS(channel, block, count) ?
-		(RET != 0 || g_disk == BUF_AT(channel, block, count, bufv)) : g_disk == OLD(g_disk));
-
+		(RET != 0 || g_disk == BUF_AT(channel, block, count, bufv)) : g_disk == OLD(g_disk))
+	ENSURES(ALIGN_STEP(channel));
 
 /* the device, read side: a successful read delivers the device byte at L* when the range covers it */
 static errcode_t raw_read_blk(io_channel channel, struct unix_private_data *data,
 			      unsigned long long block, int count, void *bufv)
-	REQUIRES(count != 0)
-	ASSIGNS(__CPROVER_object_whole(bufv), data->io_stats.bytes_read, g_nreads)
-	ENSURES(g_nreads == OLD(g_nreads) + 1)
+	REQUIRES(RAW_RANGE_OK(channel, data, block, count) && channel->read_error == 0)
+	ASSIGNS(__CPROVER_object_whole(bufv), data->io_stats.bytes_read, channel->align RAW_READ_EVENT_FRAME RAW_DEVICE_FRAME)
+	RAW_READ_EVENTS
 	ENSURES(RET != 0 || !COVERS(channel, block, count) || BUF_AT(channel, block, count, bufv) == g_disk)
-	/* the byte of the caller's buffer that belongs to L* is not touched by a request that does not cover L* */
-	ENSURES(COVERS(channel, block, count) || !KEEP_OUTSIDE(bufv, WR_SIZE(channel, count)) || *g_keep == OLD(*g_keep));
+	/* the tracked byte of the caller's buffer object is not touched when it lies outside the request's buffer range */
+	ENSURES(!KEEP_OUTSIDE(bufv, WR_SIZE(channel, count)) || *g_keep == OLD(*g_keep))
+	ENSURES(ALIGN_STEP(channel));
 
 /* ------------------------------------------------------------------ the cache (enforced in cache.c) */
 /*
@@ -233,7 +271,7 @@ static struct unix_cache *find_cached_block(struct unix_private_data *data, unsi
 #define VICTIM_AT_LSTAR (OLD(cache->in_use) && OLD(cache->dirty) && OLD(cache->block) == g_bstar)
 static errcode_t reuse_cache(io_channel channel, struct unix_private_data *data, struct unix_cache *cache,
 			     unsigned long long block)
-	REQUIRES(ATIME_OK(data))
+	REQUIRES(ATIME_OK(data) && RAW_RANGE_OK(channel, data, cache->block, 1) && channel->write_error == 0)
 	REQUIRES(IDX_OK(cache) && ALL(NOT_THIS))
 	ENSURES(RET != 0 || (cache->in_use && !cache->dirty && cache->block == block))
 	ENSURES(RET == 0 || (cache->in_use && cache->dirty && cache->block == OLD(cache->block) && cache->write_err))
@@ -243,21 +281,24 @@ static errcode_t reuse_cache(io_channel channel, struct unix_private_data *data,
 	ENSURES(VICTIM_AT_LSTAR ? (RET != 0 || g_disk == (unsigned char)cache->buf[g_ostar]) : g_disk == OLD(g_disk))
 	ENSURES(RET == 0 ? g_wfail == OLD(g_wfail) : g_wfail == 1)
 	ENSURES(data->access_time >= OLD(data->access_time) && data->access_time <= OLD(data->access_time) + 1)
+	ENSURES(ALIGN_STEP(channel))
 	/* one slice = block, access_time and the three state bits of *cache (everything but the buffer pointer) */
 	ASSIGNS(__CPROVER_object_upto((char *)&cache->block, sizeof(struct unix_cache) - __builtin_offsetof(struct unix_cache, block)),
-		data->access_time, data->io_stats.bytes_written, g_disk, g_nwrites, g_wfail);
+		data->access_time, data->io_stats.bytes_written, channel->align, g_disk, g_nwrites, g_wfail);
 
 /*
  * flush_cached_blocks.  Frame: the state bits of the eight entries (labels, buffers and buffer pointers stay), the device.
  */
 static errcode_t flush_cached_blocks(io_channel channel, struct unix_private_data *data, int flags)
 	REQUIRES(coherent(data) && channel->write_error == 0 && !(data->flags & IO_FLAG_THREADS))
+	REQUIRES(CACHE_RANGE_OK(channel, data))
 	ENSURES(coherent(data))
 	ENSURES(RET != 0 || (!any_dirty(data) && g_disk == g_logical))
 	ENSURES(RET != 0 || !(flags & FLUSH_INVALIDATE) || !any_inuse(data))
 	ENSURES(RET == 0 || g_nwrites > 0)
 	ENSURES(RET == 0 ? g_wfail == OLD(g_wfail) : g_wfail == 1)
-	ASSIGNS(ALL_ENTRY_BITS, data->io_stats.bytes_written, g_disk, g_nwrites, g_wfail);
+	ENSURES(ALIGN_STEP(channel))
+	ASSIGNS(ALL_ENTRY_BITS, data->io_stats.bytes_written, channel->align, g_disk, g_nwrites, g_wfail);
 
 static void build_channel(void)
 {
@@ -286,6 +327,9 @@ static void build_channel(void)
 	DATA.magic = EXT2_ET_MAGIC_UNIX_IO_CHANNEL;
 	DATA.flags = IN.data_flags & ~IO_FLAG_THREADS;	/* threads: not applicable (DESIGN §C17) */
 	DATA.access_time = IN.access_time;
+	DATA.offset = IN.offset;
+	ASSUME(IN.offset >= 0 && IN.offset < OFF_MAX);
+	ASSUME(IN.bstar < BLK_MAX);
 	ASSUME(IN.access_time >= 0 && IN.access_time < 0x7ffffe00);	/* assumption: < 2^31 cache accesses per channel (int counter) */
 	g_bstar = IN.bstar; g_ostar = IN.ostar; g_disk = IN.disk; g_logical = IN.logical;
 	g_nwrites = 0; g_nreads = 0; g_choice = 0; g_wfail = 0; g_keep = 0;
@@ -307,6 +351,7 @@ static void build_channel(void)
 		g_cbuf[i] = DATA.cache[i].buf;
 		DATA.cache[i].buf[IN.ostar] = IN.e[i].byte_at_ostar;
 		DATA.cache[i].block = IN.e[i].block;
+		ASSUME(IN.e[i].block < BLK_MAX);	/* labels are block numbers callers passed in */
 		DATA.cache[i].access_time = IN.e[i].access_time;
 		DATA.cache[i].dirty = IN.e[i].dirty & 1;
 		DATA.cache[i].in_use = IN.e[i].in_use & 1;
